@@ -49,6 +49,13 @@ CONDS = [
 ]
 
 
+REF_PY = {
+    'RE_NUM': r'-?(?:[0-9]+(?:\.[0-9]+)?|\.[0-9]+)(?:[eE][-+]?[0-9]+)?', 'RE_TIME': r'[0-9]{2}:[0-9]{2}',
+    'RE_MONTH': r'[0-9]{4,}-[0-9]{2}', 'RE_WEEK': r'[0-9]{4,}-W[0-9]{2}', 'RE_DATE': r'[0-9]{4,}-[0-9]{2}-[0-9]{2}',
+    'RE_DATETIME': r'[0-9]{4,}-[0-9]{2}-[0-9]{2}T[0-9]{2}:[0-9]{2}',
+}
+
+
 def shape_lemmas(ctx):
     """E2: each live value pattern accepts exactly the HTML microsyntax shape (unbounded strings, z3 regex theory)."""
     from soupsieve import css_match as cm
@@ -68,7 +75,12 @@ def shape_lemmas(ctx):
     }
     x = z3.String('x')
     for name, ref in refs.items():
-        pat = getattr(cm, name)
+        pat = getattr(cm, name, None)
+        if not hasattr(pat, 'pattern'):
+            # the pattern object is gone (the validators were restructured): the lemma has no subject; the shape is then
+            # decided by parse_shape_ok / parse_digits_ok alone
+            ctx.obligation(engine='E2/z3', name=f'{name}: no such pattern in css_match any more', verdict='not_applicable')
+            continue
         tr = rx.Translation(pat)
         lang = tr.prefix_language()      # the code uses pattern.match(value)
         s = z3.Solver()
@@ -80,10 +92,9 @@ def shape_lemmas(ctx):
             val = rx.decode(s.model().eval(x, model_completion=True))
             ob['model'] = val
             real = pat.match(val) is not None
-            py = __import__('re').fullmatch(r'-?(?:[0-9]+(?:\.[0-9]+)?|\.[0-9]+)(?:[eE][-+]?[0-9]+)?', val) is not None \
-                if name == 'RE_NUM' else None
+            shape = __import__('re').fullmatch(REF_PY[name], val) is not None
             ctx.report(dict(engine='E2', fn='shape_lemma', args=[name, val], args_repr=[repr(name), repr(val)],
-                            detail=f'{name}.match({val!r}) is {real}; the HTML shape says {not real}'), True)
+                            detail=f'{name}.match({val!r}) is {real}; the HTML shape says {shape}'), real != shape)
         ctx.obligation(**ob)
         ctx.functions.add(f'soupsieve.css_match.{name}')
 
@@ -91,11 +102,13 @@ def shape_lemmas(ctx):
 def replay(rec):
     from soupsieve import css_match as cm
     name, val = rec['args']
-    return True, f'{name}.match({val!r}) -> {getattr(cm, name).match(val) is not None}'
+    real = getattr(cm, name).match(val) is not None
+    shape = __import__('re').fullmatch(REF_PY[name], val) is not None
+    return real != shape, f'{name}.match({val!r}) -> {real}; HTML shape: {shape}'
 
 
 def run(ctx):
-    shape_lemmas(ctx)
+    ctx.lemma(shape_lemmas, 'shape_lemmas')
     ctx.assume('reference calendar: p(y) = (y + y//4 - y//100 + y//400) mod 7; 53 weeks iff p(y)=4 or p(y-1)=3 '
                '(ISO 8601 / HTML "week number of the last day")',
                'CrossHair 0.0.110 path exhaustion and its int/str/regex models are trusted for "exhaustive" verdicts; '
